@@ -214,7 +214,16 @@ class Sh:
         # strings / bytes delete + at (the rest is covered by C10)
         name = r.choice(["S", "X"]); ty, v = m.strs[name]; var = name.lower(); n = len(v)
         p, ok = r.choice(positions(n, r))
-        if r.random() < 0.5:
+        k3 = r.random()
+        if k3 < 0.3:
+            # insert at every position class, the end position p == n included (string: a string; bytes: a code or bytes)
+            ok = 0 <= p <= n
+            at, av = r.choice([('"zq"', b"zq"), ('""', b"")]) if ty == "s" else r.choice([("66", b"B"), ("raw(2, 67)", b"CC"), ("raw(0, 0)", b"")])
+            if r.random() < 0.3: at = "idf(%s)" % at
+            def api(m=m, name=name, p=p, av=av):
+                ty, v = m.strs[name]; m.strs[name] = (ty, v[:p] + av + v[p:])
+            return ("%s.insert(%s, %s)" % (var, postxt(p, r), at), "sinsert", api if ok else None, ("accept",) if ok else ("index",))
+        if k3 < 0.65:
             return ("%s.at(%s)" % (var, postxt(p, r)), "sat", None, ("value", "i:%d" % v[p]) if ok else ("index",))
         def ap(m=m, name=name, p=p):
             ty, v = m.strs[name]; m.strs[name] = (ty, v[:p] + v[p + 1:])
